@@ -43,6 +43,18 @@ inductive SExp where
   deriving Repr, Inhabited
 
 mutual
+/-- structural equality test (used by examples) -/
+def SExp.beq : SExp → SExp → Bool
+  | .atom a, .atom b => a == b
+  | .list xs, .list ys => SExp.beqL xs ys
+  | _, _ => false
+def SExp.beqL : List SExp → List SExp → Bool
+  | [], [] => true
+  | x :: xs, y :: ys => SExp.beq x y && SExp.beqL xs ys
+  | _, _ => false
+end
+
+mutual
 def flattenS : SExp → List Tok
   | .atom s => [Tok.atom s]
   | .list xs => Tok.lp :: (flattenL xs ++ [Tok.rp])
